@@ -29,6 +29,9 @@ import (
 type logT struct {
 	Seq, Lvl      int
 	Derived, Fail bool `json:",omitempty"`
+	// Stale: logged through the *slog.Logger obtained with Logger() right after construction, i.e.
+	// before any StartBuffering (finding K20f)
+	Stale bool `json:",omitempty"`
 }
 
 type bopT struct {
@@ -65,6 +68,7 @@ type workerMsg struct {
 type conductor struct {
 	c       bcaseT
 	l       *logging.Logger
+	stale   *slog.Logger
 	trace   []evT
 	current int
 	resp    chan workerMsg
@@ -175,7 +179,9 @@ func (c *conductor) worker(w int) {
 			switch op.K {
 			case "L":
 				msg := msgOf(w, op.L)
-				if op.L.Derived {
+				if op.L.Stale {
+					c.stale.Log(context.Background(), slogLevels[op.L.Lvl], msg)
+				} else if op.L.Derived {
 					c.l.With("w", w).Log(context.Background(), slogLevels[op.L.Lvl], msg)
 				} else {
 					switch op.L.Lvl {
@@ -231,6 +237,7 @@ func runB(k bcaseT, r *hx.Rand) (bcaseT, []evT, bool, map[string]int) {
 	if err != nil {
 		panic(err)
 	}
+	c.stale = c.l.Logger()
 	status := make([]int, n)
 	next := make([]int, n) // index of the op in progress (status gate) or of the next op
 	for w := 0; w < n; w++ {
@@ -379,13 +386,14 @@ func runB(k bcaseT, r *hx.Rand) (bcaseT, []evT, bool, map[string]int) {
 func emitBuffer(id string, k bcaseT, r *hx.Rand, st *hx.Stats) string {
 	k2, trace, ok, stats := runB(k, r)
 	l := hx.NewLine(id).Tok("B").Bool(k2.Custom).Nat(len(k2.Progs))
-	nlog, hasV, hasH, hasFail, hasDerived := 0, false, false, false, false
+	nlog, hasV, hasH, hasFail, hasDerived, hasStale := 0, false, false, false, false, false
 	for _, p := range k2.Progs {
 		l.Nat(len(p))
 		for _, op := range p {
 			switch op.K {
 			case "L":
-				l.Tok("L").Nat(op.L.Seq).Nat(op.L.Lvl).Bool(op.L.Derived).Bool(op.L.Fail)
+				l.Tok("L").Nat(op.L.Seq).Nat(op.L.Lvl).Bool(op.L.Derived).Bool(op.L.Fail).Bool(op.L.Stale)
+				hasStale = hasStale || op.L.Stale
 				nlog++
 				hasFail = hasFail || op.L.Fail
 				hasDerived = hasDerived || op.L.Derived
@@ -454,6 +462,9 @@ func emitBuffer(id string, k bcaseT, r *hx.Rand, st *hx.Stats) string {
 		if hasDerived {
 			st.Count("buffer_has_derived_logger")
 		}
+		if hasStale {
+			st.Count("buffer_has_stale_logger")
+		}
 		if !ok {
 			st.Count("buffer_stuck")
 		}
@@ -489,6 +500,7 @@ func setLevelWhileBuffered(k bcaseT, trace []evT) bool {
 
 func genBuffer(r *hx.Rand) bcaseT {
 	k := bcaseT{Custom: r.Chance(1, 2)}
+	staleCase := r.Chance(1, 10)
 	n := hx.Pick(r, []int{1, 2, 2, 3, 3, 4})
 	for w := 0; w < n; w++ {
 		var p []bopT
@@ -498,7 +510,11 @@ func genBuffer(r *hx.Rand) bcaseT {
 			switch x := r.Intn(20); {
 			case x < 11:
 				lvl := hx.Pick(r, []int{3, 3, 3, 1, 1, 2, 0})
-				p = append(p, bopT{K: "L", L: &logT{Seq: seq, Lvl: lvl, Derived: r.Chance(1, 3), Fail: r.Chance(1, 16)}})
+				lc := &logT{Seq: seq, Lvl: lvl, Derived: r.Chance(1, 3), Fail: r.Chance(1, 16)}
+				if staleCase && r.Chance(1, 3) {
+					lc.Stale, lc.Derived = true, false
+				}
+				p = append(p, bopT{K: "L", L: lc})
 				seq++
 			case x < 14:
 				p = append(p, bopT{K: "S"})
@@ -550,6 +566,8 @@ func fixedBuffer() []bcaseT {
 		{Custom: true, Progs: [][]bopT{{S, {K: "L", L: &logT{Seq: 0, Lvl: 3, Fail: true}}, lg(1, 3, false), F}},
 			Sched: []stepT{{G: 0}, {G: 0}, {G: 0}, {G: 0}, {G: 0}, {G: 0}}},
 		{Progs: [][]bopT{{S, {K: "L", L: &logT{Seq: 0, Lvl: 3, Fail: true}}, lg(1, 3, false), F}}, Sched: r0(4)},
+		// K20f: a slog.Logger obtained before StartBuffering bypasses the buffer
+		{Progs: [][]bopT{{S, lg(0, 3, false), {K: "L", L: &logT{Seq: 1, Lvl: 3, Stale: true}}, F}}, Sched: r0(4)},
 		// the documented use: start, log, flush on one goroutine; level filtering; shutdown
 		{Progs: [][]bopT{{S, lg(0, 1, false), lg(1, 0, false), lg(2, 3, true), F, lg(3, 2, false), {K: "H"}, lg(4, 3, false), lg(5, 3, true)}}, Sched: r0(9)},
 	}
